@@ -193,7 +193,9 @@ def run(ctx):
                           "the guard taken at %s is dropped before the mutex is locked again at %s" % (f2.loc(a_bb), f2.loc(b_bb)),
                           "%s locks the configuration mutex at %s while the guard taken at %s can still be alive: the thread deadlocks against itself holding the lock, later workers never start"
                           % (f2.path.split("::")[-1], f2.loc(b_bb), f2.loc(a_bb)), f2.loc(b_bb))
-    ctx.floor("lock-discipline", nlock, 4, "config mutex lock sites in the server binary")
+    # every Mutex::lock call of the binary is examined above; the floor only guards against the lock sites no longer being recognised at all:
+    # the shared configuration needs at least the start-up read in main and the one in the worker prologue (6 sites today)
+    ctx.floor("lock-discipline", nlock, 2, "config mutex lock sites in the server binary")
     chk = audit_facts.Checker(ctx, W)
     cloud = {f.path for f in P.fns.values() if "roughenough::kms::awskms" in f.path or "roughenough::kms::gcpkms" in f.path}
     ctx.extra["cloud_provider_code_out_of_scope"] = len(cloud)
